@@ -768,7 +768,9 @@ def gen_direct_tasks(tier, seed):
     hist = ["rand()", "sample(Binomial(5, 1/3))", "sample(Poisson(3), 4)", "rand()", "sample(Gaussian(0, 1))", "sample(UniformInt(1, 6), 5)",
             "sample(Geometric(1/5))", "sample(Exponential(2), 3)", "sample(Uniform(0, 10))", "sample(Bernoulli(1/2), 8)", "rand()"]
     for k in [0, 1, 42, -7, 10 ** 30, seed + 12345]:
-        tasks.append(dict(kind="repro", k=k, texts=hist, junk=[[], ["rand()", "sample(Poisson(2), 7)"], ["seed(99)", "rand()"]]))
+        tasks.append(dict(kind="repro", k=k, texts=hist, junk=[[], ["rand()", "sample(Poisson(2), 7)"], ["seed(99)", "rand()"],
+                                                              # an odd and an even number of Gaussian draws before the seed (a sampler that keeps a spare deviate)
+                                                              ["sample(Gaussian(0, 1))"], ["sample(Gaussian(3, 2), 3)", "rand()"], ["sample(Gaussian(0, 1), 2)", "sample(Exponential(1))"]]))
     ndkw = 20000 if tier == "quick" else 200000
     for i, law in enumerate(DKW_LAWS + (DKW_MORE if tier != "quick" else [])):
         tasks.append(dict(kind="dkw", law=law, n=ndkw, seed=seed * 1000 + 700 + i, tie_at=DKW_TIE[law[0]]))
